@@ -83,6 +83,11 @@ type c08Eval struct {
 	// stopCall (optional): calls it accepts are recorded in Facts.Calls and
 	// not traversed.
 	stopCall func(c *ssa.Call) bool
+	// flagGuards: feasible() also prunes branches on a bare boolean parameter
+	// (`if negated {…}` in a helper specialised by a flag) when the call string
+	// binds the flag to the other constant.  Off by default: families whose
+	// floors count instances per call string keep their enumeration.
+	flagGuards bool
 }
 
 type c08Key struct {
@@ -322,7 +327,16 @@ func (e *c08Eval) feasible(in ssa.Instruction, ctx *c08Ctx) bool {
 func (e *c08Eval) guardsFeasible(at ssa.Instruction, cx *c08Ctx) bool {
 	for _, g := range guardsOf(at) {
 		bo, ok := g.Cond.(*ssa.BinOp)
-		if !ok || (bo.Op != token.EQL && bo.Op != token.NEQ) {
+		if !ok {
+			// a bare boolean condition (`if negated {…}` on a helper's flag
+			// parameter): contradicted when the flag, resolved in the call
+			// string, is a pure constant of the other truth value.
+			if tv, known := c08FlagValue(g.Cond, cx, 0); e.flagGuards && known && tv != g.True {
+				return false
+			}
+			continue
+		}
+		if bo.Op != token.EQL && bo.Op != token.NEQ {
 			continue
 		}
 		want := g.True
@@ -354,6 +368,40 @@ func (e *c08Eval) guardsFeasible(at ssa.Instruction, cx *c08Ctx) bool {
 		}
 	}
 	return true
+}
+
+// c08FlagValue resolves a boolean that is a constant or a parameter bound —
+// through the call string — to a constant at the call site(s) on the string.
+func c08FlagValue(v ssa.Value, ctx *c08Ctx, depth int) (val, known bool) {
+	if depth > 10 {
+		return false, false
+	}
+	switch x := v.(type) {
+	case *ssa.Const:
+		if x.Value != nil && x.Value.Kind() == constant.Bool {
+			return constant.BoolVal(x.Value), true
+		}
+	case *ssa.UnOp:
+		if x.Op == token.NOT {
+			if b, ok := c08FlagValue(x.X, ctx, depth+1); ok {
+				return !b, true
+			}
+		}
+	case *ssa.Parameter:
+		cx := ctx
+		for cx != nil && cx.fn != x.Parent() {
+			cx = cx.parent
+		}
+		if cx == nil || cx.call == nil || cx.call.Common().IsInvoke() {
+			return false, false
+		}
+		for i, pa := range x.Parent().Params {
+			if pa == x && i < len(cx.call.Common().Args) {
+				return c08FlagValue(cx.call.Common().Args[i], cx.parent, depth+1)
+			}
+		}
+	}
+	return false, false
 }
 
 // c08Instances enumerates the call-string contexts reachable from root through
